@@ -262,6 +262,7 @@ fn weights_for(profile: &str, r: &mut Rng, faulty: bool) -> Weights {
             w.conn_close = 4;
             w.cancel = 9;
             w.poll_woken = 18;
+            w.advance = 4;
             w.dial_fail = 1;
             w.hs_fail = 1;
         }
@@ -317,7 +318,9 @@ fn gen_cfg(profile: &str, r: &mut Rng) -> PoolCfg {
         (0..origins.len()).filter(|i| origins[*i].starts_with("https") && r.chance(1, 2)).collect()
     };
     let idle_timeout_ms = match profile {
-        "C04" | "C14" | "C15" => None,
+        "C04" | "C14" => None,
+        // an idle timeout must not change what "retained" means: expired entries still count
+        "C15" => *r.pick(&[None, None, Some(5), Some(50)]),
         "C05" => *r.pick(&[None, Some(0), Some(5), Some(90_000), Some(5), Some(50)]),
         _ => *r.weighted(&[(5, None), (1, Some(0)), (1, Some(5)), (3, Some(90_000))]),
     };
